@@ -285,6 +285,39 @@ fn call_cases(ctx: &Ctx) -> Vec<(Case, bool)> {
     }).collect()
 }
 
+// Spread next to arguments / items with side effects on the spread list:
+// `f(xs.., g())` must behave as `f(xs[0], .., xs[n-1], g())` and
+// `[xs.., g()]` as `[xs[0], .., xs[n-1], g()]`, whatever g does to xs.
+// (Not as `xs + [g()]`: `+` holds its left operand by reference while
+// the right one is evaluated.)
+pub fn spread_effect_cases(ctx: &Ctx, property: &str, calls_only: bool) -> Vec<(Case, bool)> {
+    let mut out = vec![];
+    let effects = [
+        ("xs[0] = 11", "element write"), ("xs[2] += 5", "op-assign on an element"), ("xs[0:2] = [7, 8]", "range write"),
+        ("xs += [4]", "rebinding append"), ("xs = [9, 9, 9]", "rebinding"), ("[xs[1], xs[0]] = [xs[0], xs[1]]", "swap through a pattern"),
+    ];
+    for (eff, ename) in effects {
+        let pre = format!("xs := [1, 2, 3]\nfn g() {{\n    {eff}\n    return 11\n}}\nfn f(..r) {{\n    return r\n}}\nfn h(a, b, c, ..r) {{\n    return [c, b, a] + r\n}}\n");
+        let pairs = [
+            ("print(f(xs.., g()))\nprint(xs)\n", "print(f(xs[0], xs[1], xs[2], g()))\nprint(xs)\n"),
+            ("print(h(xs.., g(), xs..))\n", "print(h(xs[0], xs[1], xs[2], g(), xs..))\n"),
+            ("print(f(0, xs.., g(), g()))\n", "print(f(0, xs[0], xs[1], xs[2], g(), g()))\n"),
+            ("print([xs.., g()])\nprint(xs)\n", "print([xs[0], xs[1], xs[2], g()])\nprint(xs)\n"),
+            ("print([xs.., g(), xs..])\n", "print([xs[0], xs[1], xs[2], g(), xs..])\n"),
+            ("ys := [xs.., [g()]..]\nprint(ys)\n", "ys := [xs[0], xs[1], xs[2], [g()]..]\nprint(ys)\n"),
+            ("{a, ..rest} := {\"a\": [xs.., g()], \"b\": xs}\nprint(a)\nprint(rest)\n", "{a, ..rest} := {\"a\": [xs[0], xs[1], xs[2], g()], \"b\": xs}\nprint(a)\nprint(rest)\n"),
+        ];
+        for (l, r) in pairs {
+            if calls_only && !(l.contains("f(") || l.contains("h(")) {
+                continue;
+            }
+            ctx.label("spread beside a side effect on the spread list");
+            out.push((Case{property: property.into(), kind: "spread_effect".into(), srcs: vec![format!("{pre}{l}").into_bytes(), format!("{pre}{r}").into_bytes()], pred: Pred::Same{same_msg: false, positions: None}, note: format!("{ename}: spread form vs written-out form")}, true));
+        }
+    }
+    out
+}
+
 fn law_cases(ctx: &Ctx) -> Vec<(Case, bool)> {
     let srcs: Vec<(&str, &str)> = vec![
         ("xs := [1, 2, 3]\nys := [4]\nprint([xs.., ys..] == (xs + ys))\nprint([xs.., ys..] === xs)\nprint([xs..] == xs)\n", "true\nfalse\ntrue\n"),
@@ -310,31 +343,7 @@ fn law_cases(ctx: &Ctx) -> Vec<(Case, bool)> {
         v
     };
     let mut out: Vec<(Case, bool)> = srcs.iter().map(|(s, e)| (Case{property: "C13".into(), kind: "law".into(), srcs: vec![s.as_bytes().to_vec()], pred: Pred::Expect(Expect::ok(e.as_bytes().to_vec())), note: "inverse law evaluated by the interpreter".into()}, true)).collect();
-    // Spread next to arguments / items with side effects on the spread list:
-    // `f(xs.., g())` must behave as `f(xs[0], .., xs[n-1], g())` and
-    // `[xs.., g()]` as `[xs[0], .., xs[n-1], g()]`, whatever g does to xs.
-    // (Not as `xs + [g()]`: `+` holds its left operand by reference while
-    // the right one is evaluated.)
-    let effects = [
-        ("xs[0] = 11", "element write"), ("xs[2] += 5", "op-assign on an element"), ("xs[0:2] = [7, 8]", "range write"),
-        ("xs += [4]", "rebinding append"), ("xs = [9, 9, 9]", "rebinding"), ("[xs[1], xs[0]] = [xs[0], xs[1]]", "swap through a pattern"),
-    ];
-    for (eff, ename) in effects {
-        let pre = format!("xs := [1, 2, 3]\nfn g() {{\n    {eff}\n    return 11\n}}\nfn f(..r) {{\n    return r\n}}\nfn h(a, b, c, ..r) {{\n    return [c, b, a] + r\n}}\n");
-        let pairs = [
-            ("print(f(xs.., g()))\nprint(xs)\n", "print(f(xs[0], xs[1], xs[2], g()))\nprint(xs)\n"),
-            ("print(h(xs.., g(), xs..))\n", "print(h(xs[0], xs[1], xs[2], g(), xs..))\n"),
-            ("print(f(0, xs.., g(), g()))\n", "print(f(0, xs[0], xs[1], xs[2], g(), g()))\n"),
-            ("print([xs.., g()])\nprint(xs)\n", "print([xs[0], xs[1], xs[2], g()])\nprint(xs)\n"),
-            ("print([xs.., g(), xs..])\n", "print([xs[0], xs[1], xs[2], g(), xs..])\n"),
-            ("ys := [xs.., [g()]..]\nprint(ys)\n", "ys := [xs[0], xs[1], xs[2], [g()]..]\nprint(ys)\n"),
-            ("{a, ..rest} := {\"a\": [xs.., g()], \"b\": xs}\nprint(a)\nprint(rest)\n", "{a, ..rest} := {\"a\": [xs[0], xs[1], xs[2], g()], \"b\": xs}\nprint(a)\nprint(rest)\n"),
-        ];
-        for (l, r) in pairs {
-            ctx.label("spread beside a side effect on the spread list");
-            out.push((Case{property: "C13".into(), kind: "spread_effect".into(), srcs: vec![format!("{pre}{l}").into_bytes(), format!("{pre}{r}").into_bytes()], pred: Pred::Same{same_msg: false, positions: None}, note: format!("{ename}: spread form vs written-out form")}, true));
-        }
-    }
+    out.extend(spread_effect_cases(ctx, "C13", false));
     // Errors: a name bound twice, at any nesting; wrong places.
     let errs = [
         "a := 0\nb := 0\n[[a, b], a] = [[10, 20], 30]\nprint(a)\n", "c := 0\n{\"p\": {\"q\": c}, \"r\": c} = {\"p\": {\"q\": 1}, \"r\": 2}\nprint(c)\n",
@@ -353,6 +362,217 @@ fn law_cases(ctx: &Ctx) -> Vec<(Case, bool)> {
     out
 }
 
+// Random pattern trees (lists up to 40 wide, objects over a pool of keys that
+// may repeat, nesting to depth 3, optional rest at every level) against
+// sources built to fit them or to miss in one place, in the four binding
+// positions; oracle: the reference interpreter.
+struct PatGen<'a> {
+    t: &'a mut sdmodel::tape::Tape,
+    names: Vec<String>,
+    fresh: usize,
+}
+
+const KEYS: [&str; 7] = ["a", "b", "k", "z", "q", "long key é", "type"];
+
+impl PatGen<'_> {
+    fn name(&mut self) -> Expr {
+        // A few repeats of an earlier name: binding one name twice is an error.
+        if !self.names.is_empty() && self.t.chance(1, 25) {
+            let i = self.t.pick(self.names.len());
+            return var(&self.names[i].clone());
+        }
+        self.fresh += 1;
+        let n = format!("n{}", self.fresh);
+        self.names.push(n.clone());
+        var(&n)
+    }
+
+    // Returns the pattern and a source expression that fits it.
+    fn pat(&mut self, depth: usize) -> (Expr, Expr) {
+        let leaf = depth == 0 || self.t.chance(1, 3);
+        if leaf {
+            let v = self.value(1);
+            return if self.t.chance(1, 6) { (var("_"), v) } else { (self.name(), v) };
+        }
+        if self.t.chance(1, 2) {
+            // List pattern.
+            let w = if self.t.chance(1, 10) { [17usize, 33, 40][self.t.pick(3)] } else { self.t.pick(5) };
+            let mut items = vec![];
+            let mut srcs = vec![];
+            for _ in 0..w {
+                let (p, s) = if w > 8 { let v = self.value(0); (if self.t.chance(1, 5) { var("_") } else { self.name() }, v) } else { self.pat(depth - 1) };
+                items.push(item(p));
+                srcs.push(s);
+            }
+            let collect = self.t.chance(1, 2);
+            if collect {
+                items.push(item(if self.t.chance(1, 6) { var("_") } else { self.name() }));
+                let extra = if self.t.chance(1, 8) { [17usize, 64][self.t.pick(2)] } else { self.t.pick(4) };
+                for _ in 0..extra {
+                    let v = self.value(1);
+                    srcs.push(v);
+                }
+            }
+            (list_items(items, collect), list(srcs))
+        } else {
+            // Object pattern; a key may be bound more than once.
+            let n = self.t.pick(5);
+            let mut props = vec![];
+            let mut src: Vec<(String, Expr)> = vec![];
+            for _ in 0..n {
+                let k = KEYS[self.t.pick(KEYS.len())];
+                let existing = src.iter().position(|(sk, _)| sk == k);
+                match self.t.pick(4) {
+                    0 if k.chars().all(|c| c.is_ascii_alphabetic()) && k != "type" && !self.names.contains(&k.to_string()) => {
+                        self.names.push(k.to_string());
+                        props.push(Prop::Single{e: var(k), spread: false, collect: false});
+                        if existing.is_none() {
+                            let v = self.value(1);
+                            src.push((k.to_string(), v));
+                        }
+                    },
+                    1 => {
+                        // Computed key.
+                        let nm = self.name();
+                        props.push(Prop::Pair(bin(Op::Sum, string(k), string("")), nm));
+                        if existing.is_none() {
+                            let v = self.value(1);
+                            src.push((k.to_string(), v));
+                        }
+                    },
+                    _ => {
+                        // Rename, possibly to a nested pattern; a repeated
+                        // key keeps the value (and shape) it already has.
+                        if let Some(i) = existing {
+                            let nm = if self.t.chance(1, 5) { var("_") } else { self.name() };
+                            props.push(Prop::Pair(string(k), nm));
+                            let _ = i;
+                        } else {
+                            let (p, s) = self.pat(depth - 1);
+                            props.push(Prop::Pair(string(k), p));
+                            src.push((k.to_string(), s));
+                        }
+                    },
+                }
+            }
+            let collect = self.t.chance(1, 2);
+            if collect {
+                props.push(Prop::Single{e: if self.t.chance(1, 6) { var("_") } else { self.name() }, spread: false, collect: true});
+            }
+            // Surplus properties (they end up in the rest, or are ignored).
+            let extra = self.t.pick(4);
+            for j in 0..extra {
+                let k = format!("x{j}");
+                let v = self.value(1);
+                src.push((k, v));
+            }
+            // Source properties in a shuffled order.
+            let mut shuffled = vec![];
+            while !src.is_empty() {
+                let i = self.t.pick(src.len());
+                shuffled.push(src.remove(i));
+            }
+            (obj(props), obj(shuffled.into_iter().map(|(k, v)| Prop::Pair(string(&k), v)).collect()))
+        }
+    }
+
+    fn value(&mut self, depth: usize) -> Expr {
+        match self.t.pick(if depth == 0 { 3 } else { 5 }) {
+            0 => int(self.t.range(-3, 99)),
+            1 => string(["", "s", "é日"][self.t.pick(3)]),
+            2 => if self.t.chance(1, 2) { null() } else { boolean(self.t.chance(1, 2)) },
+            3 => { let n = self.t.pick(3); list((0..n).map(|_| self.value(depth - 1)).collect()) },
+            _ => { let n = self.t.pick(3); obj((0..n).map(|j| pair(["m", "n", "o"][j], self.value(depth - 1))).collect()) },
+        }
+    }
+}
+
+// One place of the fitting source changed: an element dropped or added, a
+// property removed, a container replaced by a scalar.
+fn perturb(t: &mut sdmodel::tape::Tape, e: &mut Expr, budget: &mut u32) {
+    if *budget == 0 {
+        return;
+    }
+    match &mut e.k {
+        EK::List(items, _) => {
+            if t.chance(1, 3) {
+                *budget -= 1;
+                match t.pick(3) {
+                    0 if !items.is_empty() => { let i = t.pick(items.len()); items.remove(i); },
+                    1 => items.push(item(int(777))),
+                    _ => { *e = [int(5), null(), string("str"), obj(vec![])][t.pick(4)].clone(); },
+                }
+                return;
+            }
+            if !items.is_empty() {
+                let i = t.pick(items.len());
+                perturb(t, &mut items[i].e, budget);
+            }
+        },
+        EK::Obj(props) => {
+            if t.chance(1, 3) {
+                *budget -= 1;
+                match t.pick(2) {
+                    0 if !props.is_empty() => { let i = t.pick(props.len()); props.remove(i); },
+                    _ => { *e = [int(5), null(), list(vec![int(1)])][t.pick(3)].clone(); },
+                }
+                return;
+            }
+            if !props.is_empty() {
+                let i = t.pick(props.len());
+                if let Prop::Pair(_, v) = &mut props[i] {
+                    perturb(t, v, budget);
+                }
+            }
+        },
+        _ => {},
+    }
+}
+
+fn random_pattern_case(t: &mut sdmodel::tape::Tape, ctx: &Ctx) -> Option<(Case, bool)> {
+    let mut g = PatGen{t, names: vec![], fresh: 0};
+    let (pat, mut src) = g.pat(3);
+    let mut names = g.names.clone();
+    names.sort();
+    names.dedup();
+    if !matches!(pat.k, EK::List(..) | EK::Obj(_)) {
+        return None;
+    }
+    let fits = !t.chance(1, 3);
+    if !fits {
+        let mut budget = 1;
+        perturb(t, &mut src, &mut budget);
+    }
+    let p = Pat{e: pat.clone(), names: names.clone(), simple: false, has_rest: true, label: "random pattern"};
+    let mut all = positions(&p, &src);
+    let (pos, mut stmts) = all.remove(t.pick(all.len()));
+    // Rebuild law: for an object pattern made of plain renames and a named
+    // rest, {"k": v, .., rest..} == source.
+    if pos == "declaration" {
+        if let EK::Obj(props) = &pat.k {
+            let plain = props.iter().all(|p| match p {
+                Prop::Pair(k, v) => matches!(k.k, EK::Str(_)) && matches!(&v.k, EK::Var(n) if n != "_"),
+                Prop::Single{e, collect, ..} => matches!(&e.k, EK::Var(n) if n != "_") && (*collect || true),
+            }) && props.iter().any(|p| matches!(p, Prop::Single{collect: true, ..}));
+            if plain {
+                let mut back = vec![];
+                for p in props {
+                    match p {
+                        Prop::Pair(k, v) => back.push(Prop::Pair(k.clone(), v.clone())),
+                        Prop::Single{e, collect: false, ..} => back.push(Prop::Single{e: e.clone(), spread: false, collect: false}),
+                        Prop::Single{e, collect: true, ..} => back.push(Prop::Single{e: e.clone(), spread: true, collect: false}),
+                    }
+                }
+                stmts.push(pv(bin(Op::Eq, obj(back), src.clone())));
+                ctx.label("rebuild law {k: v, rest..} == o");
+            }
+        }
+    }
+    ctx.label(&format!("random pattern in {pos} position"));
+    ctx.label(if fits { "random pattern: fitting source" } else { "random pattern: source off in one place" });
+    mk_case(ctx, "random_pattern", stmts, format!("random pattern in {pos} position"), true)
+}
+
 pub fn run(ctx: &Ctx) {
     ctx.set_rule("every list pattern of width 0..3 (thorough: 4) over {name, _, nested [p, q], nested [h, ..t], nested {\"a\": x}} with and without a final ..rest, against lists of length 0..5 (two element families) and 4 non-list kinds; every object pattern of up to 3 entries from {shorthand, rename, rename to _, nested list pattern, computed key, nested object collect, absent key} with and without ..rest, against objects of size 0..5 and 3 non-object kinds; each in declaration, assignment, for-target and parameter position with all bound names printed, plus the round-trip law [p..] + rest == xs; every split of 0..5 argument values into plain and spread arguments (incl. empty spreads) against arity 0..4 with and without a rest parameter; a catalogue of inverse laws and of shape errors (duplicate names at any nesting, misplaced spread / collect); oracle: reference binding semantics, laws evaluated in Seed. Non-trivial = pattern with collect or nesting, or a call with spread arguments or a rest parameter; distinct = distinct source texts");
     ctx.replay_corpus(None);
@@ -366,4 +586,6 @@ pub fn run(ctx: &Ctx) {
     ctx.set_extra("call_cases", serde_json::json!(cases.len()));
     ctx.judge_all(cases, Via::Cli, None);
     ctx.mark_exhaustive("pattern x source x position product; argument-split x arity x rest product");
+    let n = ctx.n(20_000, 1_500_000);
+    ctx.proptest_tapes("random_patterns", n, 300, Via::Fast, None, |t| random_pattern_case(t, ctx));
 }
